@@ -1037,5 +1037,6 @@ int main(int argc, char** argv)
       }
     }
     if(g_log.child) { fflush(stdout); _exit(0); }
+    if(!g_log.errfile.empty()) unlink(g_log.errfile.c_str());
   });
 }
